@@ -15,29 +15,29 @@ use serde_json::json;
 pub static C13: Scenario = Scenario {
     property: "C13",
     level: "exploration",
-    rule: "paseto-builder-history, all 8 protocols in rotation: a PasetoBuilder::default() is created at simulated time T_c (swept: whole second, +1 ns, +999999999 ns, leap day, year end, 2038/2262 boundaries, 1971, 8999, random) and then driven by a call sequence over the 10-symbol alphabet {set exp, set nbf, set iat, set iss|sub|aud|jti, set custom, set_no_expiration_danger_acknowledged, set_footer, set_implicit_assertion, build, build-that-fails (entropy fault for local, malformed signing key for public)}; build may occur anywhere and repeatedly and one more build is appended. ALL sequences up to length 4 (quick) / 5 (thorough) are swept systematically, longer ones (to 40) are seeded-random. Every successful build is delivered cleanly and read back with a validator-free GenericParser. Oracle per build: acknowledged -> no exp member; otherwise an exp member; without caller-supplied exp/iat/nbf: iat == nbf == T_c and exp == T_c + 1h as instants. Non-trivial = the sequence has at least one call before a build or more than one build; distinct = distinct abstract traces.",
+    rule: "paseto-builder-history, all 8 protocols in rotation: a PasetoBuilder::default() is created at simulated time T_c (swept: whole second, +1 ns, +999999999 ns, leap day, year end, 2038/2262 boundaries, 1971, 8999, random) and then driven by a call sequence over the 10-symbol alphabet {set exp, set nbf, set iat, set iss|sub|aud|jti, set custom, set_no_expiration_danger_acknowledged, set_footer, set_implicit_assertion, build, build-that-fails (entropy fault for local, malformed signing key for public)}; build may occur anywhere and repeatedly and one more build is appended. ALL sequences up to length 4 (quick) / 6 (thorough, 10^6) are swept systematically, longer ones (to 40) are seeded-random. Every successful build is delivered cleanly and read back with a validator-free GenericParser. Oracle per build: acknowledged -> no exp member; otherwise an exp member; without caller-supplied exp/iat/nbf: iat == nbf == T_c and exp == T_c + 1h as instants. Non-trivial = the sequence has at least one call before a build or more than one build; distinct = distinct abstract traces.",
     runs: |t| match t {
         Tier::Quick => 11_111 + 12_000,
-        Tier::Thorough => 111_111 + 150_000,
+        Tier::Thorough => 1_111_111 + 500_000,
     },
     gen: |c, i| gen(c, i, "C13"),
     judge: |run, obs| oracle::judge("C13", run, obs),
     assumptions: &["read-back uses a validator-free GenericParser; a build whose token cannot be read back is counted unjudged (round trip is C01/C02)"],
-    exhaustive: &["all call sequences of length 0..=4 (quick) / 0..=5 (thorough) over the 10-symbol alphabet, plus one final build"],
+    exhaustive: &["all call sequences of length 0..=4 (quick) / 0..=6 (thorough) over the 10-symbol alphabet, plus one final build"],
 };
 
 pub static C17: Scenario = Scenario {
     property: "C17",
     level: "exploration",
-    rule: "paseto-builder-history over the 12-symbol alphabet {set exp, nbf, iat, iss, sub, aud, jti, custom a, custom b, acknowledgement, set_footer, build}: ALL sequences up to length 4 (quick) / 5 (thorough, 12^5) swept systematically with one more build appended, random ones to length 40; build may occur anywhere and repeatedly so every prefix is judged. Reference model: set of supplied keys with a sticky duplicate flag. Oracle at each build: a key supplied twice -> Err(DuplicateTopLevelPayloadClaim(k)) with k a duplicated key, no token, at that and every later build; otherwise Ok and the read-back token carries each caller-supplied value. Latitude: exp after the acknowledgement (either refused, then sticky, or ignored). Non-trivial as C13; distinct = distinct abstract traces.",
+    rule: "paseto-builder-history over the 12-symbol alphabet {set exp, nbf, iat, iss, sub, aud, jti, custom a, custom b, acknowledgement, set_footer, build}: ALL sequences up to length 4 (quick) / 6 (thorough, 12^6) swept systematically with one more build appended, random ones to length 40; build may occur anywhere and repeatedly so every prefix is judged. Reference model: set of supplied keys with a sticky duplicate flag. Oracle at each build: a key supplied twice -> Err(DuplicateTopLevelPayloadClaim(k)) with k a duplicated key, no token, at that and every later build; otherwise Ok and the read-back token carries each caller-supplied value. Latitude: exp after the acknowledgement (either refused, then sticky, or ignored). Non-trivial as C13; distinct = distinct abstract traces.",
     runs: |t| match t {
         Tier::Quick => 22_621 + 8_000,
-        Tier::Thorough => 271_453 + 150_000,
+        Tier::Thorough => 3_257_437 + 500_000,
     },
     gen: |c, i| gen(c, i, "C17"),
     judge: |run, obs| oracle::judge("C17", run, obs),
     assumptions: &["failing builds (entropy fault / malformed key) are expected to return Err and leave the duplicate verdict unchanged"],
-    exhaustive: &["all call sequences of length 0..=4 (quick) / 0..=5 (thorough) over the 12-symbol alphabet, plus one final build"],
+    exhaustive: &["all call sequences of length 0..=4 (quick) / 0..=6 (thorough) over the 12-symbol alphabet, plus one final build"],
 };
 
 fn tc(r: &mut Rng, i: u64) -> i128 {
@@ -95,9 +95,9 @@ fn systematic(mut i: u64, k: u64, maxlen: u32) -> Option<Vec<usize>> {
 fn gen(ctx: &GenCtx, i: u64, prop: &str) -> Option<Run> {
     let mut r = run_rng(ctx, prop, i);
     let (alpha, maxlen): (&[Sym], u32) = if prop == "C13" {
-        (&ALPHA13, if ctx.tier == Tier::Quick { 4 } else { 5 })
+        (&ALPHA13, if ctx.tier == Tier::Quick { 4 } else { 6 })
     } else {
-        (&ALPHA17, if ctx.tier == Tier::Quick { 4 } else { 5 })
+        (&ALPHA17, if ctx.tier == Tier::Quick { 4 } else { 6 })
     };
     let seq: Vec<Sym> = match systematic(i, alpha.len() as u64, maxlen) {
         Some(v) => v.into_iter().map(|x| alpha[x]).collect(),
